@@ -58,7 +58,7 @@ CLAIMED = {
         category="proof",
         text="Element-tree route: the real fold step Aggregate._convert.update_args is proved, for a symbolic child of an arbitrary class, to refuse exactly the order and duplicate violations of the spec step and otherwise to extend the accumulator as the spec step does. Keyword route: for each of the 390 classes Aggregate.__init__ (with the class's own validate_args) is executed symbolically over all presence patterns: it returns only if every required child is present and every mutex group declared by any base class holds, stores exactly conv(attr, value) per attribute, and raises only when a declared constraint is violated. List members (_apply_args) and leftover keywords (_apply_residual_kwargs) are proved generically. Enumeration / length / digit limits are the C10 converter contracts used through the abstract converter.",
         design_ref="DESIGN.md 9 (C04, common scheme)",
-        note="Trusted: pyvc; L1 abstraction of class-level mappings as uninterpreted index/predicates; abstract converters justified by the C10 contracts; functools.reduce = iterated step. Class-specific validate_args overrides are executed, their own rules are not specified independently. Failing L1 obligations have no concrete input (abstract arguments): the bounded companion on real classes supplies one where it finds it, otherwise the VIOLATION line says no-failing-input-found. Known finding: mutex groups naming a repeated child can never fire (shared with C13).",
+        note="Trusted: pyvc; L1 abstraction of class-level mappings as uninterpreted index/predicates; abstract converters justified by the C10 contracts; functools.reduce = iterated step. Class-specific validate_args overrides are executed; of their own rules only ACCTINFO's (at least one member, at most one per service wherever it stands) has an independent contract (contracts/validators.py). Failing L1 obligations have no concrete input (abstract arguments): the bounded companion on real classes supplies one where it finds it, otherwise the VIOLATION line says no-failing-input-found. Known finding: mutex groups naming a repeated child can never fire (shared with C13).",
         technique="L1 generic step proofs with symbolic attribute + L2 per-class symbolic execution of the real constructor; pyvc VCs + z3",
         engine="pyvc"),
     "C03": dict(
@@ -86,7 +86,7 @@ CLAIMED = {
         category="proof",
         text="Control/data-flow contracts on the real OFXClient methods with abstract callees: download sends nothing on a dry run and otherwise performs exactly one post_request to (url or self.url) with the serialized request; post_request builds one POST Request with that body, the three prescribed headers and an opener holding a cookie processor bound to this instance's jar iff cookies persist; request_statements/accounts/tax1099 pass '' on a dry run, self.url with skip_profile and otherwise the single advertised service URL, and hand the caller's password to signon; _request_profile signs on with the anonymous placeholder for user and password; __init__ allocates a fresh jar per instance.",
         design_ref="DESIGN.md 9 (C14)",
-        note="Callees are uninterpreted recorders (contracts only). Cookie storage/replay is http.cookiejar (T-EXT); the bounded companion runs all request sequences of length <= 3 over two clients x {post, dry run} x persist_cookies x cookie-setting server on the real urllib opener with a fake transport. The `requests` branch of post_request is unverified code (library absent, USE_REQUESTS False). The url rule is proved with no statement requests given.",
+        note="Callees are uninterpreted recorders (contracts only). Cookie storage/replay is http.cookiejar (T-EXT); the bounded companion runs all request sequences of length <= 3 over two clients x {post, dry run} x persist_cookies x cookie-setting server on the real urllib opener with a fake transport. The `requests` branch of post_request is unverified code (library absent, USE_REQUESTS False). The url / dry-run / profile-look-up rules are proved with no requests and with requests of every kind in seven orders (the C06 assembly contracts); _get_service_urls is proved to hand back the advertised URL per kind of request as it is; __init__ builds a fresh jar with the standard unrestricted policy.",
         technique="frame/flow contracts over abstract callees (pyvc + z3); bounded run on the real urllib stack",
         engine="pyvc"),
     "C15": dict(
@@ -135,7 +135,7 @@ CLAIMED = {
         category="proof",
         text="Frames: every converter function (convert/unconvert of every element type, all date-time layouts) is proved to write no field of the shared descriptor or of any argument on any path, returning or raising; Element.__set__ writes obj.__dict__[name] and nothing else; groom (base, MFINFO, STOCKINFO, MAIL) writes nothing its caller owns, proved over an ownership-tracked element model with symbolic tags; the fold of _convert and the loop body of to_etree leave the element tree / the model unwritten (composition rule stated in props/c17.py). History: a census of every syntactic site that can store state outliving a call (module globals, class attributes, descriptor fields, default arguments, memo decorators, writes through parameters) in the parse/convert/serialize modules must equal the committed allow-list, each admitted site with its reason; the one dispatch-registry re-registration is covered by the proof that unconvert's outcome does not depend on the instance bound. Bounded: real instances of the model classes with broken variants and whole documents, each call twice, three orders with failing items interleaved, 8 threads.",
         design_ref="DESIGN.md 9 (C17)",
-        note="Thread schedules are NOT decided by this technique: the contracts are sequential; the threaded run is a bounded smoke test over the schedules the OS happens to produce. ElementTree's Element is modelled (list-of-children record, deepcopy/copy semantics) - trusted. The census is syntactic: aliasing through containers or calls it cannot see is not covered; it over-approximates parameters (flow-insensitive).",
+        note="Thread schedules are NOT decided by this technique: the contracts are sequential; the threaded run is a bounded smoke test over the schedules the OS happens to produce. ElementTree's Element is modelled (list-of-children record, deepcopy/copy semantics) - trusted. OFXTree._read (whose stream it is, also on failing paths) and OFXTree.convert (the conversion of the current root, nothing kept on the parser) are under contract; the census also treats an item store into a container bound in a class body as class state. The census is syntactic: aliasing through containers or calls it cannot see is not covered; it over-approximates parameters (flow-insensitive).",
         technique="frame obligations on the real functions (pyvc + z3, native replay with before/after snapshots); ownership model for element trees; syntactic state census against an allow-list; bounded history/thread runs",
         engine="pyvc"),
     "C18": dict(
